@@ -295,8 +295,66 @@ fn large_coefficient_part<V: Pq>(ctx: &mut Ctx) {
     ctx.add_part(part);
 }
 
+/// (4') both verifiers on signatures whose squared norm is exactly at, one below and one above the bound:
+/// the reference accepts `<= floor(beta^2)`; whatever it accepts must be accepted here and vice versa.
+fn norm_boundary_part<V: Pq>(ctx: &mut Ctx) {
+    let n = V::N;
+    let bound = crate::refmodel::sig_bound(n);
+    let mut part = Part::new(&format!("both_verifiers_at_the_norm_bound_{}", n), "engineered valid-format signatures (s2 = a X^i for a in {1, -2, 127, -128, 2047}, i in {0, n-1}; s1 a sum of few squares placed sparsely; public key solved) with squared norm T in {bound-1, bound, bound+1} x 2 (salt, message) pairs: the reference verifier's verdict (accept iff T <= bound) and ours must be the same");
+    let mut verdicts = std::collections::BTreeSet::new();
+    for (salt, msg) in [(vec![0x16u8; 40], b"norm boundary".to_vec()), ((0u8..40).collect::<Vec<u8>>(), Vec::new())] {
+        let mut sm = salt.clone();
+        sm.extend_from_slice(&msg);
+        let c = hash_to_point(&sm, n, None);
+        for a in [1i64, -2, 127, -128, 2047] {
+            for i in [0usize, n - 1] {
+                for t in [bound - 1, bound, bound + 1] {
+                    let mut s2 = vec![0i64; n];
+                    s2[i] = a;
+                    let Some(sq) = super::c02::squares(t - a * a) else { continue };
+                    if sq.len() * 3 >= n {
+                        continue;
+                    }
+                    let s1 = super::c02::sparse(n, &sq, (i + 1) % n);
+                    let Some(h) = super::c02::solve_h(&c, &s1, &s2) else { continue };
+                    let Some(body) = crate::refmodel::codec::compress(&s2, sig_len(n) - 41) else { continue };
+                    let pkb = crate::refmodel::keycodec::pk_encode(&h);
+                    let ours = super::c02::encode_sig(n, &salt, &body);
+                    let pv = V::pq_verify(&pq::rust_sig_to_pq(&ours), &msg, &pkb);
+                    if pv != (t <= bound) {
+                        machinery_error("C16: the reference verifier's verdict contradicts the constructed norm");
+                    }
+                    part.states += 1;
+                    part.transitions += 2;
+                    part.validated += 1;
+                    let r = catch(|| {
+                        let pk = V::pk_from_bytes(&pkb).map_err(|e| format!("pk: {}", e))?;
+                        let sig = V::sig_from_bytes(&ours).map_err(|e| format!("sig: {}", e))?;
+                        Ok::<bool, String>(V::verify(&msg, &sig, &pk))
+                    });
+                    verdicts.insert(pv);
+                    match r {
+                        Ok(Ok(v)) if v == pv => part.outcome(format!("T - bound = {}: both {}", t - bound, if v { "accept" } else { "reject" })),
+                        other => ctx.violation(
+                            format!("verifiers-disagree-at-norm-bound:n={},T-bound={}", n, t - bound),
+                            format!("{}: a signature of squared norm bound{:+} (s2 = {} X^{}) is {} by the reference verifier but here: {:?}", V::name(), t - bound, a, i, if pv { "accepted" } else { "rejected" }, other),
+                            json!({"kind":"norm-boundary","variant":n,"a":a,"i":i,"T_minus_bound":t - bound}),
+                        ),
+                    }
+                }
+            }
+        }
+    }
+    if verdicts.len() < 2 {
+        machinery_error("C16: the norm-boundary family produced only one reference verdict (vacuity guard)");
+    }
+    part.exhaustive = true;
+    ctx.add_part(part);
+}
+
 fn one_variant<V: Pq>(ctx: &mut Ctx, tier: Tier) {
     large_coefficient_part::<V>(ctx);
+    norm_boundary_part::<V>(ctx);
     let n = V::N;
     let seeds = crate::util::seed_window(n, tier.thorough(), ctx.seed);
     let seeds: Vec<u64> = if tier.thorough() { seeds.into_iter().take(if n == 512 { 48 } else { 12 }).chain(crate::util::seed_window(n, false, 0).into_iter().rev().take(1)).collect() } else { seeds.into_iter().rev().take(if n == 512 { 4 } else { 2 }).collect() };
@@ -392,7 +450,7 @@ pub fn replay(case: &Value) -> Result<Option<String>, String> {
                 pq_key_case::<V1024>(&mut t, idx)
             }
         }
-        "large-coefficient" => return Err("re-run ./vf check C16 (the family is enumerated deterministically)".into()),
+        "large-coefficient" | "norm-boundary" => return Err("re-run ./vf check C16 (the family is enumerated deterministically)".into()),
         _ => return Err(format!("unknown kind {}", kind)),
     }
     Ok(t.found.into_iter().next().map(|(_, f)| f.what))
